@@ -72,6 +72,7 @@ SIZES = {
 FLOORS = {
     'quick': {
         'exh:bin-range-numbers': 1024, 'exh:bin-texts': 4095, 'exh:small-texts': 584 + 272,
+        'lookalike_history_calls': 96,
         'round_trips': 28000, 'round_trips:negative': 10000, 'negative_renderings': 2100,
         'places_calls': 85000, 'places:too-small->error': 48000, 'places:padded': 25000,
         'compositions': 250000, 'numbers:oct:in-range': 2000, 'numbers:hex:in-range': 2000,
@@ -681,8 +682,35 @@ def sample_float(rng, base):
 
 # --------------------------------------------------------------------------- run / replay
 
+def lookalike_history(ctx):
+    """values that Python's == and hash() conflate (TRUE / 1 / 1.0 / '1', FALSE / 0 / 0.0 / '0') handed to the same
+    function one after the other, first thing in the process: even shards start with the logicals, odd shards
+    end with them.  The result for one must not depend on the other having been converted before (a memo keyed
+    by the bare value does that).  Each call is judged by the ordinary per-case oracle."""
+    seq = []
+    for base in R.BASES:
+        for one, kinds in (((True, 1, 1.0, '1'), None), ((False, 0, 0.0, '0'), None)):
+            for v in one:
+                if isinstance(v, bool) or isinstance(v, float):
+                    seq.append({'kind': 'from_dec', 'base': base, 'v': v})
+                    seq.append({'kind': 'to_dec', 'base': base, 'v': v})
+                elif isinstance(v, int):
+                    seq.append({'kind': 'number', 'base': base, 'n': v})
+                    seq.append({'kind': 'to_dec', 'base': base, 'v': v})
+                else:
+                    seq.append({'kind': 'text', 'base': base, 's': v})
+                    seq.append({'kind': 'from_dec', 'base': base, 'v': v})
+    if ctx.shard % 2:
+        seq.reverse()
+    for case in seq:
+        CHECKS[case['kind']](ctx, dict(case), False)
+        ctx.case(('lookalike', ctx.shard % 2, repr(case)))
+        ctx.count('lookalike_history_calls')
+
+
 def run(ctx):
     size = SIZES[ctx.tier]
+    lookalike_history(ctx)
     # A. the whole binary range (both tiers)
     for n in range(R.lo(2), R.hi(2) + 1):
         do(ctx, {'kind': 'number', 'base': 2, 'n': n}, exhaustive=True, counter='exh:bin-range-numbers')
